@@ -22,7 +22,7 @@ EXPLANATION = (
     "proofs, enumerate / range(len) indices, try/except) or by an allow-table entry carrying the grammar or construction invariant "
     "(re-checked against the grammar model where it is a grammar fact); R10.4 third-party parse entry points are exception boundaries "
     "(known finding: not wrapped); R10.5 the silent-mode branch warns on every path and returns a fresh, effect-free holder; R10.6 model "
-    "objects (no __lt__) are never ordered without a key. R10.7 the evaluated flag is set last and on success only, so an accessor called after a failed one raises the library exception again instead of AttributeError. Does not decide: exceptions raised inside sqlfluff/sqlparse/networkx for "
+    "objects (no __lt__) are never ordered without a key. R10.8 graph views (degree / nodes / edges ...) are subscripted only with keys known to be in that graph; R10.7 the evaluated flag is set last and on success only, so an accessor called after a failed one raises the library exception again instead of AttributeError. Does not decide: exceptions raised inside sqlfluff/sqlparse/networkx for "
     "well-formed calls, recursion depth."
 )
 RULE_TEXT = (
@@ -340,6 +340,54 @@ def rules(ctx: Ctx) -> None:
             if isinstance(n, ast.Raise) and any(p and t.startswith("len(") and t.endswith(".write) > 1") for t, p in flow(prog, f).facts_for(n)):
                 guard = True
     ctx.ob("R10.5", "multi-write-guard", guard, base_exc.loc(), "more than one write target raises the library's exception")
+    # ---- R10.8 graph views are subscripted only with keys known to be in the graph ------------------------------
+    # (networkx raises KeyError / NetworkXError for an absent node or edge: a graph-library exception the contract forbids)
+    VIEWS = {"degree", "in_degree", "out_degree", "nodes", "edges", "adj", "pred", "succ"}
+    n_view = 0
+    for f in prog.funcs.values():
+        if f.mod.name in ("sqllineage.cli", "sqllineage.drawing", "sqllineage.io"):
+            continue
+        for n in prog.walk_fn(f):
+            if not (isinstance(n, ast.Subscript) and isinstance(n.ctx, ast.Load) and isinstance(n.value, ast.Attribute) and n.value.attr in VIEWS):
+                continue
+            recv_t = prog.infer(n.value.value, f)
+            if not ("Graph" in repr(recv_t) or u(n.value.value).endswith("graph") or u(n.value.value) in ("g", "G")):
+                continue
+            n_view += 1
+            G = u(n.value.value)
+            K = n.slice
+            kt = u(K)
+            where = loc(f.mod, n)
+            facts = set(flow(prog, f).facts_for(n))
+            from ..cfg import controlling_facts as _cf
+
+            facts |= set(_cf(prog.parents, n))
+            guarded = any(p and t in (f"{G}.has_node({kt})", f"{kt} in {G}", f"{kt} in {G}.nodes", f"{G}.has_edge(*{kt})", f"{kt} in {G}.edges") for t, p in facts)
+            # the key is an element of a view of the same graph (loop / comprehension variable, possibly one component of it)
+            from_view = False
+            why = ""
+            for x in ast.walk(K):
+                if isinstance(x, ast.Name):
+                    for src in prog.value_sources(f, x):
+                        it = getattr(src, "iter", None)
+                        if it is not None and any(isinstance(k, ast.Attribute) and u(k.value) == G for k in ast.walk(it)) or it is not None and u(it).startswith(G + "."):
+                            from_view = True
+            if not guarded and not from_view:
+                # a lambda parameter ranging over a property of the graph's owner that enumerates the graph's own edges / nodes
+                lam = next((a for a in prog.ancestors(n) if isinstance(a, ast.Lambda)), None)
+                call = prog.parent(prog.parent(lam)) if lam is not None and isinstance(prog.parent(lam), ast.keyword) else None
+                if lam is not None and isinstance(call, ast.Call) and call.args and isinstance(K, ast.Name) and K.id in [a.arg for a in lam.args.args]:
+                    itx = call.args[0]
+                    if isinstance(itx, ast.Attribute) and G.startswith(u(itx.value)):
+                        for getter in prog.property_getters(itx, f):
+                            if any(isinstance(k, ast.Attribute) and k.attr in ("edges", "nodes") and "graph" in u(k.value) for k in prog.walk_fn(getter)):
+                                from_view = True
+                                why = f" (elements of `{u(itx)}` are enumerated from the same graph by {getter.owner})"
+            ctx.ob("R10.8", f"graph-view-key-present:{f.owner}:{n.value.attr}", guarded or from_view, where,
+                   f"`{u(n)}`: the key must be known to be in the graph (has_node / has_edge / membership test, or an element of a view of the same graph){why}; "
+                   f"networkx raises KeyError otherwise")
+    ctx.floor("subscripts of graph views", n_view, 2)
+
     # ---- R10.7 a failed evaluation is retried, not half-visible -------------------------------------
     # (after a library exception every later accessor must raise the same library exception again, not AttributeError on a holder
     # that was never assigned)
